@@ -20,6 +20,10 @@ import (
 
 type HistCfg struct {
 	Obj string `json:"obj"` // p1 | p2 | xp1 | xp2 | comp | cont
+	// Start, when present, is a claims-set whose CBOR encoding the object is
+	// first populated from (a decoded token as the starting state instead of
+	// a fresh NewClaims result).
+	Start *ClaimsDesc `json:"start,omitempty"`
 }
 
 type histWorld struct{}
@@ -204,11 +208,23 @@ func (histWorld) Gen(prop, tier string, idx int, r *Rng) *Trace {
 		return &Trace{World: "W-HIST", Cfg: cj, Ops: ops}
 	}
 	obj := []string{"p1", "p2", "p1", "p2", "xp2", "xp1", "comp", "cont"}[r.Intn(8)]
-	cj, _ := json.Marshal(HistCfg{Obj: obj})
+	hc := HistCfg{Obj: obj}
+	if obj != "comp" && obj != "cont" && r.Chance(1, 3) {
+		d := genValidClaims(r, obj)
+		if r.Chance(1, 4) {
+			d = genInvalidClaims(r, obj)
+		}
+		hc.Start = &d
+	}
+	cj, _ := json.Marshal(hc)
 	n := r.Range(1, 40)
 	var ops []Op
 	for i := 0; i < n; i++ {
-		ops = append(ops, genHistOp(r, obj))
+		op := genHistOp(r, obj)
+		if len(op.X) > 0 && r.Chance(1, 4) {
+			op.C = 1 // pass the very slice the previous byte-string call was given (caller-side aliasing)
+		}
+		ops = append(ops, op)
 	}
 	// repetition bias: re-issue an earlier call now and then
 	for i := 1; i < len(ops); i++ {
@@ -473,8 +489,46 @@ func claimIndex(k string) int {
 	return -1
 }
 
-func newHistClaims(obj string) (psatoken.IClaims, error) {
-	return psatoken.NewClaims(profileNameOf(obj))
+func newHistClaims(obj string, start *ClaimsDesc) (c psatoken.IClaims, err error) {
+	defer func() {
+		if r := recover(); r != nil {
+			c, err = nil, fmt.Errorf("panic: %v", r)
+		}
+	}()
+	c, err = psatoken.NewClaims(profileNameOf(obj))
+	if err != nil || start == nil {
+		return c, err
+	}
+	src, berr := start.build()
+	if berr != nil {
+		return c, nil
+	}
+	b, eerr := psatoken.EncodeClaimsToCBOR(src)
+	if eerr != nil {
+		return c, nil
+	}
+	if u, ok := c.(interface{ UnmarshalCBOR([]byte) error }); ok {
+		if uerr := u.UnmarshalCBOR(b); uerr != nil {
+			// not decodable: start from the fresh object after all
+			return psatoken.NewClaims(profileNameOf(obj))
+		}
+	}
+	return c, nil
+}
+
+// histArg, when non-nil, is the slice a byte-string setter is handed instead
+// of a fresh copy of the operation's bytes (caller-side aliasing).
+var histArg []byte
+
+func isByteSetter(k string) bool {
+	return k == "impl" || k == "seed" || k == "nonce" || k == "inst"
+}
+
+func setterBytes(op Op) []byte {
+	if histArg != nil {
+		return histArg
+	}
+	return opBytes(op)
 }
 
 // callSetter applies op to c through the public setter.
@@ -491,13 +545,13 @@ func callSetter(c psatoken.IClaims, op Op) (err error, applicable bool) {
 	case "lc":
 		return c.SetSecurityLifeCycle(uint16(op.A)), true
 	case "impl":
-		return c.SetImplID(opBytes(op)), true
+		return c.SetImplID(setterBytes(op)), true
 	case "seed":
-		return c.SetBootSeed(opBytes(op)), true
+		return c.SetBootSeed(setterBytes(op)), true
 	case "nonce":
-		return c.SetNonce(opBytes(op)), true
+		return c.SetNonce(setterBytes(op)), true
 	case "inst":
-		return c.SetInstID(opBytes(op)), true
+		return c.SetInstID(setterBytes(op)), true
 	case "cert":
 		return c.SetCertificationReference(op.S), true
 	case "vsi":
@@ -566,26 +620,30 @@ func (histWorld) Exec(prop string, t *Trace) *Result {
 	case "cont":
 		execHistCont(res, t)
 	default:
-		execHistClaims(res, t, cfg.Obj)
+		execHistClaims(res, t, cfg.Obj, cfg.Start)
 	}
 	res.Shape = hash64(cfg.Obj, res.shapeAcc)
 	return res
 }
 
-func execHistClaims(res *Result, t *Trace, obj string) {
-	c, err := newHistClaims(obj)
+func execHistClaims(res *Result, t *Trace, obj string, start *ClaimsDesc) {
+	c, err := newHistClaims(obj, start)
 	if err != nil {
 		res.Fatal = "NewClaims: " + err.Error()
 		return
 	}
 	lastOK := map[string]Op{}
 	accepted, rejected := 0, 0
+	var held []byte
+	if start != nil {
+		res.Probes["decoded_start_state"]++
+	}
 	for i, op := range t.Ops {
 		res.OpsRun++
 		res.Steps++
 		if op.K == "rebuild" {
 			// order / repetition independence: last successful call per claim on a fresh object
-			fresh, err := newHistClaims(obj)
+			fresh, err := newHistClaims(obj, start)
 			if err != nil {
 				break
 			}
@@ -622,9 +680,22 @@ func execHistClaims(res *Result, t *Trace, obj string) {
 			res.Probes["rebuild_compared"]++
 			continue
 		}
+		if isByteSetter(op.K) {
+			if op.C == 1 && held != nil {
+				// same slice object as the previous byte-string call; its content is the value
+				op.X = append(HexBytes{}, held...)
+				op.D = 0
+				histArg = held
+				res.Probes["aliased_argument"]++
+			} else {
+				histArg = opBytes(op)
+			}
+			held = histArg
+		}
 		before := fullObs(c)
 		beforeG := getterList(c)
 		err, ok := callSetter(c, op)
+		histArg = nil
 		if !ok {
 			continue
 		}
